@@ -163,4 +163,14 @@ META = {
     design_ref='DESIGN.md 6/C16',
     note='Closest to the edge of the technique: the spec contributes the aliasing/heap model and the small-scope enumeration; coverage of "all byte strings" is sampling and claimed as exploration.',
     technique='TLA+ heap model + trace validation of enumerated operation sequences and sampled codec round trips (small-scope exhaustive + class sampling)'),
+ 'C20': dict(
+    text='PubSubDecorators.tla defines Expected(cfg, batch) for delay.Publisher (precedence metadata > context > generator, one inner call or none, AllowNoDelay) and TLC checks '
+         'OneCallPerBatch, ExactlyOneStamp, NothingWithoutDelay over all configurations x batches of <=3 messages. Real delay.Publisher runs the same full matrix (with For / Until '
+         'past / future / zero context delays and for/until agreement), every publisher- and subscriber-decorator stack of depth <=3 over {transform, metrics, delay} is checked for '
+         'transparency (one inner call, order, every transform once, errors and Close pass through, settling the outer message settles the inner one), and Prometheus router metrics '
+         'applied once and twice are compared, per label, with the harness\' own counts of handler invocations, publish calls and settled messages over outcome sequences incl. '
+         'panics, publish failures and a message settled after Router.Close',
+    design_ref='DESIGN.md 6/C20',
+    note='Counter equality is judged on a private prometheus.Registry gathered at quiescence. delayed_until has one-second resolution.',
+    technique='TLA+ stamping function checked exhaustively by TLC, used as oracle; trace validation of decorator stacks and counter/event equality'),
 }
